@@ -39,7 +39,9 @@ TrCall ==
   /\ IsEvent("Call")
   /\ pc[ev.th] = "idle" /\ ~needRet[ev.th]
   /\ IF debug[ev.set] THEN Stutter ELSE FcBegin(ev.th, ev.set, ev.name)
-  /\ UNCHANGED <<idmap, needObs, needRet>>
+  \* (with Debug on the call must log that it went past the cache before it loads)
+  /\ needObs' = IF debug[ev.set] THEN [needObs EXCEPT ![ev.th] = TRUE] ELSE needObs
+  /\ UNCHANGED <<idmap, needRet>>
 
 TrCallClean ==
   /\ IsEvent("CallClean") /\ ~needRet[ev.th]
@@ -61,7 +63,7 @@ TrGet ==
        THEN /\ cur[ev.th].s = ev.set /\ cur[ev.th].n = ev.name
             /\ cache[ev.set][ev.name] = 0
             /\ FcCrit(ev.th)
-       ELSE /\ pc[ev.th] = "idle" /\ debug[ev.set]
+       ELSE /\ pc[ev.th] = "idle" /\ debug[ev.set] /\ ~needObs[ev.th]
             /\ FcBegin(ev.th, ev.set, ev.name)
   /\ needObs' = IF pc[ev.th] = "fccrit" THEN [needObs EXCEPT ![ev.th] = TRUE] ELSE needObs
   /\ UNCHANGED needRet
@@ -94,7 +96,7 @@ TrMissFail ==
 TrBypass ==
   /\ IsEvent("CacheBypass")
   /\ pc[ev.th] = "idle" /\ debug[ev.set]
-  /\ Stutter /\ UNCHANGED <<idmap, needObs, needRet>>
+  /\ Stutter /\ UNCHANGED <<idmap, needRet>> /\ needObs' = [needObs EXCEPT ![ev.th] = FALSE]
 
 TrCleanCall ==
   /\ IsEvent("CacheCleanCall")
